@@ -131,6 +131,17 @@ func runC06(c *sim.Ctx, t *testing.T) {
 		if start.Bs == nil {
 			start.Bs = map[string]interface{}{}
 		}
+		if c.Chance(1, 8, "errorhistory") {
+			// a machine that failed and recovered several times and kept its diagnostics: each
+			// error state holds the bindings of the one before
+			var h interface{} = map[string]interface{}{"n": 1.0}
+			for d := 2 + c.Intn(4, "historydepth"); d > 0; d-- {
+				h = map[string]interface{}{"lastBindings": h, "lastNode": "n0", "error": "earlier trouble"}
+			}
+			for k, v := range h.(map[string]interface{}) {
+				start.Bs[k] = v
+			}
+		}
 		if typed {
 			if c.Bool("idlistbs") {
 				start.Bs[bsKeys[c.Intn(3, "idbskey")]] = []interface{}{1.0, 2.0}
